@@ -158,7 +158,8 @@ func layout(fs afero.Fs, base string, destExists bool) error {
 			return err
 		}
 	}
-	files := map[string]string{join(base, "a"): "sentinel a"}
+	// the sibling "aa" shares a name prefix with the destination "a" (what a separator-less prefix test lets through)
+	files := map[string]string{join(base, "aa"): "sentinel aa"}
 	if base != "" {
 		files[filepath.Join(filepath.Dir(base), "a")] = "sentinel ../a"
 		files[filepath.Join(filepath.Dir(filepath.Dir(base)), "a")] = "sentinel ../../a"
@@ -169,7 +170,7 @@ func layout(fs afero.Fs, base string, destExists bool) error {
 		}
 	}
 	if destExists {
-		return fs.MkdirAll(join(base, "d"), 0o755)
+		return fs.MkdirAll(join(base, destName), 0o755)
 	}
 	return nil
 }
@@ -361,9 +362,9 @@ func stem(p string) string { return strings.TrimSuffix(filepath.Base(p), filepat
 func (c *caseSpec) destString(base string) string {
 	switch c.Dest {
 	case destAbs:
-		return filepath.Join(base, "d")
+		return filepath.Join(base, destName)
 	case destAbsSlash:
-		return filepath.Join(base, "d") + "/"
+		return filepath.Join(base, destName) + "/"
 	}
 	return c.Dest
 }
@@ -518,7 +519,7 @@ func (s *sandbox) runCase(c *caseSpec) (res caseResult, engineErr error) {
 		}
 		if !sameDump(after, s.baseline[want]) {
 			verify := len(diffs) > 0
-			if len(diffs) == 0 && destAbsPath == filepath.Join(s.base, "d") {
+			if len(diffs) == 0 && destAbsPath == filepath.Join(s.base, destName) {
 				// only the destination differs from the baseline: empty it and restore the two timestamps involved
 				e := os.RemoveAll(destAbsPath)
 				if e == nil && c.DestExists {
